@@ -1,7 +1,8 @@
 (* C13 Exec: the checkers evaluated by vm_compute on (history, observed Get results). *)
 From God Require Import Base.Prelude C13.Spec.
 From God Require Export C13.Model.   (* gval constructors appear in the encoded cases *)
-From GodGen Require C13_Gen.
+(* Exec does not import the regenerated constants: a change that alters or breaks gen/C13_Gen.v must break
+   Link.v (link_minReplicas / link_topWeight) only, while the checkers keep the statement's own numbers. *)
 Require Coq.Strings.String.
 Local Open Scope N_scope.
 
@@ -27,8 +28,8 @@ Record hcase := mkcase {
 
 Definition optnat_eqb := option_eqb Nat.eqb.
 
-Definition min_replicas : nat := Z.to_nat C13_Gen.minReplicas.
-Definition top_weight : nat := Z.to_nat C13_Gen.TopWeight.
+Definition min_replicas : nat := 100.
+Definition top_weight : nat := 100.
 
 Definition cap_of (c : hcase) : nat :=
   if c_custom c then Nat.max (c_replicas c) min_replicas else min_replicas.
